@@ -42,7 +42,12 @@ func vfRandRawHeaders(r *verifkit.Rand, prefix string) []*conformancev1.Header {
 	var hs []*conformancev1.Header
 	used := map[string]bool{}
 	for k := r.Intn(5); k > 0; k-- {
-		name := verifkit.Pick(r, []string{"X-" + prefix + "-A", "x-" + strings.ToLower(prefix) + "-b", "X-" + prefix + "-Multi", "Grpc-Status", "Connect-Custom", "Grpc-Message", "X-" + prefix + "-Bin"})
+		names := []string{"X-" + prefix + "-A", "x-" + strings.ToLower(prefix) + "-b", "X-" + prefix + "-Multi", "Grpc-Status", "Connect-Custom", "Grpc-Message", "X-" + prefix + "-Bin"}
+		if prefix == "Trl" {
+			// trailer names that look like well-known header fields
+			names = append(names, "Cache-Control", "Authorization", "If-Match")
+		}
+		name := verifkit.Pick(r, names)
 		if used[strings.ToLower(name)] {
 			continue
 		}
@@ -55,6 +60,8 @@ func vfRandRawHeaders(r *verifkit.Rand, prefix string) []*conformancev1.Header {
 	}
 	return hs
 }
+
+var vfForbiddenTrailer = map[string]bool{"Cache-Control": true, "Authorization": true, "If-Match": true}
 
 func vfRandRawResponse(r *verifkit.Rand) *conformancev1.RawHTTPResponse {
 	raw := &conformancev1.RawHTTPResponse{Headers: vfRandRawHeaders(r, "Hdr"), Trailers: vfRandRawHeaders(r, "Trl")}
@@ -234,6 +241,12 @@ func TestVerifC17ServerRaw(t *testing.T) {
 				}
 			}
 			for _, h := range raw.Trailers {
+				if resp.ProtoMajor == 2 && vfForbiddenTrailer[http.CanonicalHeaderKey(h.Name)] {
+					// RFC 9110 6.5.1 field names that must not be sent as trailers: golang.org/x/net/http2 drops them
+					// whatever the handler does; only HTTP/1.1 (where the server sends them) is judged
+					rep.Count("forbidden_trailer_name_over_http2_not_judged", 1)
+					continue
+				}
 				if gotV := resp.Trailer.Values(h.Name); !reflect.DeepEqual(gotV, h.Value) {
 					key := "raw/server/trailer"
 					if onBothSides[strings.ToLower(h.Name)] {
